@@ -102,23 +102,10 @@ Proof.
   - apply Nat.eqb_eq. exact H2.
 Qed.
 
-(* the ions of D and T ask for d.nff / t.nff, which do not exist, while H+ has a table: the
-   statement "the SLD does not depend on the isotopes present" has no model for them *)
-Theorem isotope_ion_table_refuted : exists a b, avariant a b /\
-  sftable EB05 nff_files a = NoneVal /\ exists t, sftable EB05 nff_files b = Val t.
-Proof.
-  exists (mkAtom 1 2 1), (mkAtom 1 0 1). split; [split; reflexivity|]. split.
-  - vm_compute. reflexivity.
-  - destruct (sftable EB05 nff_files (mkAtom 1 0 1)) as [t| |] eqn:E.
-    + exists t. reflexivity.
-    + exfalso. revert E. vm_compute. discriminate.
-    + exfalso. revert E. vm_compute. discriminate.
-Qed.
-
-(* every other atom of an element H..U uses that element's table *)
+(* every atom of an element (isotopes, ions, also the ions of D and T) uses the element's table *)
 Theorem same_table_for_variants : forall a b, avariant a b ->
-  xray_symbol EB05 a = xray_symbol EB05 b -> sftable EB05 nff_files a = sftable EB05 nff_files b.
-Proof. intros a b _ H. unfold sftable. rewrite H. reflexivity. Qed.
+  sftable EB05 nff_files a = sftable EB05 nff_files b.
+Proof. intros a b [Hz _]. unfold sftable, xray_symbol. rewrite Hz. reflexivity. Qed.
 
 (* ------------------------------------------------------------------ the reader's literals *)
 Theorem nff_reader_literals : reader_literals_ok = true.
